@@ -104,6 +104,130 @@ def named_ids(I, entries):
     return out
 
 
+def keyword_slots(sg):
+    """for every text field of a CTI directive the keyword(s) it stands under: the identifier before the last '=' of the
+    literal text written so far ({value: [keyword, ...]}, one entry per occurrence)"""
+    out = {}
+    acc = ''
+    for s_ in sg.segs:
+        if s_.kind == 'lit':
+            acc += s_.text
+        elif s_.cls != 'num':
+            m_ = _re.search(r'(\w+)\s*=[^=]*$', acc)
+            out.setdefault(s_.value, []).append(m_.group(1) if m_ else None)
+    return out
+
+
+# Instances that are written below / in c07.py but NOT armed, because the unmodified tree fails them: genuine defects
+# reproduced against the real code (/tmp/gaps3/DEFECT3_C07.md: script, observed / expected, proposed patch).  Remove an
+# entry once the defect is fixed in pMuTT - the instance is armed from then on.
+#   D1  NumPy numbers / arrays for reactor options without unit reach the serialiser as they are
+#   D2  write_yaml writes into the section dictionaries of the caller (reactor, inlet_gas, simulation, solver, multi_input)
+#   D3  the YAML writers strip every single quote of the serialiser's text (a species called NO reads back as a boolean)
+#   D4  Nasa9.to_cti does not close its species( directive and uses NASA( for nine coefficients
+PENDING_DEFECTS = {'D1', 'D2', 'D3', 'D4'}
+
+
+def yaml_offences(data, path=()):
+    """what a YAML serialiser can only write with Python-specific tags (pMuTT's own read_yaml - SafeLoader - and
+    OpenMKM's yaml-cpp cannot read them back): containers other than dictionaries and lists (a tuple is written as
+    !!python/tuple, an array as a binary object), lists that hold NumPy scalars (list(arr): !!python/object/apply:numpy...),
+    objects.  [(path, what)]"""
+    out = []
+    where = '/'.join(str(p_).strip(Z) for p_ in path) or '(top level)'
+    if isinstance(data, DictV):
+        for k_, v_ in data.d.items():
+            out += yaml_offences(v_, path + (data.okey(k_) if isinstance(k_, str) else k_,))
+    elif isinstance(data, ListV):
+        if getattr(data, 'is_tuple', False):
+            out.append((where, 'a tuple'))
+        elif getattr(data, 'is_array', False):
+            out.append((where, 'a NumPy array'))
+        elif getattr(data, 'np_int', False) or getattr(data, 'np_elems', False):
+            out.append((where, 'a list of NumPy scalars'))
+        for k_, v_ in enumerate(data.items):
+            out += yaml_offences(v_, path + (k_,))
+    elif isinstance(data, Obj):
+        out.append((where, 'an object (%s)' % data.name))
+    elif data is None or isinstance(data, (Rat, str, SegStr, bool, int, float)):
+        pass
+    else:
+        raise Unsupported('YAML data holds a value of kind %s at %s' % (type(data).__name__, where))
+    return out
+
+
+def check_yaml_plain(run, data, rule, construct, key, module, fn):
+    bad = yaml_offences(data)
+    run.check(not bad, rule, construct, key,
+              'the YAML data holds %s: a YAML file that loads (safe loader, yaml-cpp) is made of dictionaries, lists, '
+              'text, booleans and plain Python numbers - anything else is written with a python-specific tag'
+              % ', '.join('%s at %s' % (w_, p_) for p_, w_ in bad[:4]), module, fn)
+
+
+_CTI_NODES = (_ast.Module, _ast.Expr, _ast.Call, _ast.keyword, _ast.Constant, _ast.List, _ast.Tuple, _ast.Load,
+              _ast.UnaryOp, _ast.USub, _ast.UAdd)
+
+
+def cti_offences(repo, sg, is_directive=None):
+    """why an abstract CTI text is not a sequence of CTI directives.  The file is executed by Cantera's ctml_writer
+    (pmutt/io/ctml_writer.py): every statement is a call of one of its directives, by keywords the directive has,
+    every argument a literal (text, number, list or tuple of such) or again a directive.  Fields of the text are
+    spelled with a sample (a number for a printed number, letters for a name; a field that stands for the entry of a
+    whole object - ``is_directive(value)`` - a directive)."""
+    sample = ''.join(s_.text if s_.kind == 'lit' else ('1.5' if s_.cls == 'num' else (
+        'species(name="Xx")' if is_directive is not None and is_directive(s_.value) else 'Xx')) for s_ in sg.segs)
+    try:
+        tree = _ast.parse(sample)
+    except SyntaxError as e_:
+        return ['not Python syntax (%s): %s' % (e_.msg, (e_.text or '').strip()[:80])]
+    cw = repo.module('pmutt.io.ctml_writer')
+    out = []
+    funcs = set()
+    for n_ in _ast.walk(tree):
+        if isinstance(n_, _ast.Call):
+            funcs.add(id(n_.func))
+            if not isinstance(n_.func, _ast.Name):
+                out.append('a call of %s' % _ast.unparse(n_.func)[:40])
+                continue
+            nm_ = n_.func.id
+            if nm_ in cw.classes:
+                found = repo.find_method(cw.classes[nm_], '__init__', missing_ok=True)
+                fdef = found[1] if found else None
+            else:
+                fdef = cw.functions.get(nm_)
+                if fdef is None:
+                    out.append('%s(...), which is not a directive of ctml_writer' % nm_)
+                    continue
+            if fdef is not None and fdef.args.kwarg is None:
+                params = [a_.arg for a_ in fdef.args.posonlyargs + fdef.args.args + fdef.args.kwonlyargs]
+                for kw_ in n_.keywords:
+                    if kw_.arg is not None and kw_.arg not in params:
+                        out.append('%s(%s=...): the directive has no such keyword' % (nm_, kw_.arg))
+    for stmt in tree.body:
+        if not (isinstance(stmt, _ast.Expr) and isinstance(stmt.value, _ast.Call)):
+            out.append('a statement that is not a directive: %s' % _ast.unparse(stmt)[:60])
+    for n_ in _ast.walk(tree):
+        if isinstance(n_, _ast.Name):
+            if id(n_) not in funcs:
+                out.append('the bare name %s where a literal is expected' % n_.id)
+        elif isinstance(n_, _ast.UnaryOp):
+            if not (isinstance(n_.operand, _ast.Constant) and isinstance(n_.operand.value, (int, float))):
+                out.append('the expression %s' % _ast.unparse(n_)[:40])
+        elif not isinstance(n_, _CTI_NODES):
+            out.append('%s (%s) where a literal or a directive is expected' % (_ast.unparse(n_)[:40] if isinstance(
+                n_, _ast.expr) else type(n_).__name__, type(n_).__name__))
+    return out
+
+
+def check_cti_directives(run, repo, I, out, rule, construct, key, module, fn, is_directive=None):
+    if not isinstance(out, (str, SegStr)):
+        return
+    bad = cti_offences(repo, I.seg(out), is_directive)
+    run.check(not bad, rule, construct, key,
+              'the CTI text is not a valid sequence of CTI directives (it is executed by ctml_writer): it contains %s; '
+              'text: %s' % ('; '.join(bad[:3]), show(out, 300).replace(Z, '')), module, fn)
+
+
 def species_emitters(run, repo):
     nasa = 'pmutt.empirical.nasa'
     for cname in ('Nasa', 'Nasa9', 'Shomate'):
@@ -157,6 +281,14 @@ def species_emitters(run, repo):
             run.fail('SLOT.cti', cname + '.to_cti', 'raises', 'to_cti raises %s' % out.exc, owner.module, fn)
         else:
             sg = I.seg(out)
+            if cname != 'Nasa9' or 'D4' not in PENDING_DEFECTS:
+                check_cti_directives(run, repo, I, out, 'SLOT.cti', cname + '.to_cti', 'valid directives', owner.module,
+                                     fn)
+            else:
+                # not armed: on the unmodified tree the entry of a NASA-9 species never closes its species( directive
+                # and names the 7-coefficient directive NASA for nine coefficients (DEFECT3_C07.md D4)
+                run.note('Nasa9.to_cti: "valid directives" is not armed (the entry does not close species( and uses the '
+                         'directive NASA for nine coefficients: DEFECT3_C07.md D4)', owner.module, fn)
             nums = [f.value for f in sg.fields() if f.cls == 'num' and isinstance(f.value, Rat)]
             nums_wo_sites = [x for x in nums if not x.eq(ns)]
             run.check(eq_list(nums_wo_sites, want_cti), 'SLOT.cti', cname + '.to_cti', 'coefficients and bounds',
@@ -183,6 +315,7 @@ def species_emitters(run, repo):
         if isinstance(d, Raised) or not isinstance(d, DictV):
             run.fail('SLOT.yaml', cname + '.to_omkm_yaml', 'raises', 'to_omkm_yaml gives %s' % show(d), owner.module, fn)
             continue
+        check_yaml_plain(run, d, 'SLOT.yaml', cname + '.to_omkm_yaml', 'plain YAML data', owner.module, fn)
         th = d.d.get('thermo')
         okT = isinstance(th, DictV) and eq_list(flat(th.d.get('temperature-ranges')), want_T)
         run.check(okT, 'SLOT.yaml', cname + '.to_omkm_yaml', 'temperature ranges',
@@ -247,6 +380,7 @@ def phase_emitters(run, repo):
             d = I.call_method(ph, 'to_omkm_yaml', [], {'units': u})
             cn = qual.split('.')[-1]
             if isinstance(d, DictV):
+                check_yaml_plain(run, d, 'DATAFLOW.phase', cn + '.to_omkm_yaml', 'plain YAML data' + ulab, owner.module, fn)
                 got_sp = [I.plain(x) for x in flat(d.d.get('species'))]
                 got_el = sorted(I.plain(x) for x in flat(d.d.get('elements')))
                 run.check(got_sp == names, 'DATAFLOW.phase', cn + '.to_omkm_yaml', 'species' + ulab,
@@ -269,6 +403,12 @@ def phase_emitters(run, repo):
                               'site density written as %s, expected site_density*[mol/cm2 -> %s/%s2] = %s with unit %s'
                               % (show(d.d.get('site-density'), 100), usys['quantity'], usys['length'],
                                  show(want, 80), ulit), owner.module, fn)
+                    lossy = lossy_fields(sg) if sg is not None else []
+                    run.check(not lossy, 'DIM.site-density', cn + '.to_omkm_yaml', 'site density digits kept' + ulab,
+                              'the YAML phase entry prints %s: a site density has any magnitude in the unit system asked '
+                              'for (2.5e-9 mol/cm2), its text must keep at least %d significant digits whatever the '
+                              'magnitude' % (['%s as {:%s}' % (show(v_, 30), s_) for v_, s_ in lossy[:3]], NEED_DIGITS),
+                              owner.module, fn)
             else:
                 run.fail('DATAFLOW.phase', cn + '.to_omkm_yaml', 'raises' + ulab, 'gives %s' % show(d), owner.module,
                          fn)
@@ -281,6 +421,8 @@ def phase_emitters(run, repo):
                          fn)
                 continue
             sg = I.seg(out)
+            check_cti_directives(run, repo, I, out, 'DATAFLOW.phase', cn + '.to_cti', 'valid directives' + ulab,
+                                 owner.module, fn)
             texts = [f.value for f in sg.fields() if f.cls != 'num']
             run.check(all(texts.count(n_) == 1 for n_ in names) and all(texts.count(e_) == 1 for e_ in all_el),
                       'DATAFLOW.phase', cn + '.to_cti', 'species and elements once' + ulab,
@@ -288,6 +430,14 @@ def phase_emitters(run, repo):
             run.check(texts.count(kw['name']) == 1 and texts.index(kw['name']) == 0, 'DATAFLOW.phase', cn + '.to_cti',
                       'name' + ulab, 'the CTI phase entry must open with the name of the phase; its text fields are %s'
                       % [str(t).strip(Z) for t in texts], owner.module, fn)
+            # which keyword a name stands under: species under species=, elements under elements=
+            slots = keyword_slots(sg)
+            wrong = {str(v_).strip(Z): slots.get(v_) for v_, w_ in [(n_, 'species') for n_ in names] +
+                     [(e_, 'elements') for e_ in all_el] if slots.get(v_) != [w_]}
+            run.check(not wrong, 'DATAFLOW.phase', cn + '.to_cti', 'species under species=, elements under elements=' + ulab,
+                      'in the CTI phase entry every species name must stand under species= and every element under '
+                      'elements=; found under other keywords: %s (entry: %s)' % (wrong, show(sg, 300).replace(Z, '')),
+                      owner.module, fn, sample='%s.to_cti: species= lists the species, elements= the elements' % cn)
             if qty:
                 nums = num_fields(I, out)
                 # mol/cm2 -> quantity/length2, g/cm3 -> mass/length3
@@ -320,6 +470,8 @@ def phase_emitters(run, repo):
             run.fail('DATAFLOW.phase', cn + '.to_cti', 'species list longer than a line', 'to_cti gives %s'
                      % show(out, 80), owner.module, fn)
             continue
+        check_cti_directives(run, repo, I, out, 'DATAFLOW.phase', cn + '.to_cti', 'valid directives [17 species]',
+                             owner.module, fn)
         segs = I.seg(out).segs
         pos = [k_ for k_, s_ in enumerate(segs) if s_.kind == 'field' and s_.value in mnames]
         listed = [segs[k_].value for k_ in pos]
@@ -331,6 +483,17 @@ def phase_emitters(run, repo):
                   % (len(set(listed)), '' if listed == mnames else ' (missing or out of order: %s)'
                      % [str(n_).strip(Z) for n_ in mnames if listed.count(n_) != 1], show(out, 400).replace(Z, '')),
                   owner.module, fn, sample='%s.to_cti: 17 species over several lines, each once' % cn)
+        slots = keyword_slots(I.seg(out))
+        mels = []
+        for s_ in many:
+            for e_ in s_.attrs['elements'].d:
+                if e_ not in mels:
+                    mels.append(e_)
+        wrong = {str(v_).strip(Z): slots.get(v_) for v_, w_ in [(n_, 'species') for n_ in mnames] +
+                 [(e_, 'elements') for e_ in mels] if slots.get(v_) != [w_]}
+        run.check(not wrong, 'DATAFLOW.phase', cn + '.to_cti', 'species under species=, elements under elements= '
+                  '[17 species]', 'in the CTI entry of a phase with 17 species every species name must stand under '
+                  'species= and every element under elements=; found under other keywords: %s' % wrong, owner.module, fn)
     # the phases an interface adjoins, given as phase objects and as names: the entry names each of them (by its name),
     # and itself by its own name
     ci = repo.cls('pmutt.omkm.phase.InteractingInterface')
@@ -383,14 +546,21 @@ def phase_emitters(run, repo):
     li = [Obj(n_, attrs={'name': n_}) for n_ in ('i_0001', 'i_0002', 'i_0004')]
     for o_ in li:
         o_.missing.add('id')            # a lateral interaction is identified by its name
-    for with_members in (True, False):
+    # ... and the ordinary mechanism: reactions, none of them with a BEP relation (no keyword beps= then: an empty
+    # list of relations is not a relation)
+    rx_plain = [o_ for o_ in rx if o_.attrs.get('bep') is None]
+    for with_members in (True, False, 'no BEP'):
         kw = dict(cases[2][1], species=ListV(list(sp)))
-        if with_members:
+        if with_members == 'no BEP':
+            kw.update({'reactions': ListV(rx_plain), 'interactions': ListV(li)})
+        elif with_members:
             kw.update({'reactions': ListV(rx), 'interactions': ListV(li)})
         ph = fr.apply(ci, [], kw, None)
-        lab = 'with reactions, interactions, BEPs' if with_members else 'without members'
+        lab = 'with reactions and interactions, no reaction with a BEP relation' if with_members == 'no BEP' else \
+            'with reactions, interactions, BEPs' if with_members else 'without members'
         d = I.call_method(ph, 'to_omkm_yaml', [], {'units': u})
-        want = ('declared-species', 'declared-species', 'all') if with_members else ('none', 'none', 'none')
+        want = ('declared-species', 'declared-species', 'none') if with_members == 'no BEP' else \
+            ('declared-species', 'declared-species', 'all') if with_members else ('none', 'none', 'none')
         got = tuple(I.plain(d.d.get(k_)) for k_ in ('interactions', 'reactions', 'beps')) if isinstance(d, DictV) \
             else None
         run.check(got == want, 'DATAFLOW.phase', 'InteractingInterface.to_omkm_yaml', 'members declared [%s]' % lab,
@@ -401,6 +571,11 @@ def phase_emitters(run, repo):
             run.fail('DATAFLOW.phase', 'InteractingInterface.to_cti', 'members [%s]' % lab, 'gives %s' % show(out, 80),
                      owner_c.module, fn_c)
             continue
+        check_cti_directives(run, repo, I, out, 'DATAFLOW.phase', 'InteractingInterface.to_cti',
+                             'valid directives [%s]' % lab, owner_c.module, fn_c)
+        if isinstance(d, DictV):
+            check_yaml_plain(run, d, 'DATAFLOW.phase', 'InteractingInterface.to_omkm_yaml', 'plain YAML data [%s]' % lab,
+                             owner_y.module, fn_y)
         lit = ''.join(s_.text if s_.kind == 'lit' else '\x01' for s_ in I.seg(out).segs)
 
         def slot(name):
@@ -410,7 +585,13 @@ def phase_emitters(run, repo):
             rest = lit[i_ + len(name) + 1:]
             j_ = rest.find(']')
             return rest[:j_ + 1] if j_ >= 0 else rest
-        if with_members:
+        if with_members == 'no BEP':
+            s_r, s_i = slot('reactions'), slot('interactions')
+            ok = s_r is not None and s_i is not None and slot('beps') is None and \
+                all(x in s_r for x in ('r_0002', 'r_0008')) and 'i_000' not in s_r and \
+                all(x in s_i for x in ('i_0001', 'i_0002', 'i_0004')) and 'r_000' not in s_i
+            why = 'reactions=%s interactions=%s beps=%s' % (s_r, s_i, slot('beps'))
+        elif with_members:
             s_r, s_i, s_b = slot('reactions'), slot('interactions'), slot('beps')
             ok = s_r is not None and s_i is not None and s_b is not None and \
                 all(x in s_r for x in ('r_0001', 'r_0003', 'r_0007', 'r_0008')) and 'i_000' not in s_r and \
@@ -493,8 +674,17 @@ def reaction_emitters(run, repo):
                 (False, False, C(2), False, None, None, U_KJ, ONE_X2),
                 (False, False, C(Fr(3, 2)), False, None, None, U_MOLEC, TWO_ONE),
                 (False, False, C(1), False, 'species', None, U_CM, TWO_ONE),
-                (True, False, C(1), False, None, None, U_KJ, HALF_GAS))
-    for adsorption, user_ea, pcoef, motz, ts_kind, ads_method, usys, rside in variants:
+                (True, False, C(1), False, None, None, U_KJ, HALF_GAS),
+                # a pre-exponential factor given by the user (documented: "If not specified, uses reaction to determine
+                # value"): it is the value, in every unit system, whatever the number of sites and whether or not the
+                # step has a transition state
+                (False, False, C(2), False, None, None, U_KJ, ONE_ONE, True),
+                (False, False, C(Fr(3, 2)), False, None, None, U_MOLEC, TWO_ONE, True),
+                (False, True, C(2), False, 'species', None, U_CM, ONE_ONE, True),
+                (True, False, C(2), False, None, None, U_MOLEC, ONE_ONE, True))
+    for variant in variants:
+        adsorption, user_ea, pcoef, motz, ts_kind, ads_method, usys, rside = variant[:8]
+        user_A = len(variant) > 8 and variant[8]
         I = Interp(repo)
         D = I.D
         fr = Frame(I, repo.module('pmutt'), {}, None, None)
@@ -533,10 +723,11 @@ def reaction_emitters(run, repo):
         if tsp is not None:
             tskw = {'ts': [tsp], 'tstoich': [C(1)]}
         rxn = make_reaction(I, repo, ci, rs, rnu, [b], [pcoef], id=rid, is_adsorption=adsorption,
-                            A=None, beta=D.sym('beta'), Ea=D.sym('Ea_user') if user_ea else None,
+                            A=D.sym('A_user') if user_A else None, beta=D.sym('beta'),
+                            Ea=D.sym('Ea_user') if user_ea else None,
                             direction='cleavage' if ts_kind == 'bep' else None,
                             sticking_coeff=D.sym('stick'), use_motz_wise=motz, **tskw)
-        label = 'adsorption=%s user Ea=%s' % (adsorption, user_ea) \
+        label = 'adsorption=%s user Ea=%s' % (adsorption, user_ea) + (' user A' if user_A else '') \
             + ('' if rside == ONE_ONE else ' reactant coefficients ' + rside) \
             + ('' if pcoef.eq(C(2)) else ' product coefficient %s' % pcoef.const_value()) \
             + (' Motz-Wise' if motz else '') + ('' if ts_kind is None else ' transition state=' + ts_kind) \
@@ -586,6 +777,8 @@ def reaction_emitters(run, repo):
             # (number of sites taken - 1)
             if adsorption:
                 wantA = D.sym('stick')
+            elif user_A:
+                wantA = D.sym('A_user')
             else:
                 conv = I.unit(usys_['quantity']) / I.unit('mol') / (I.unit(usys_['length'] + '2') / I.unit('cm2'))
                 wantA = D.sym('kb') / D.sym('h')
@@ -655,6 +848,8 @@ def reaction_emitters(run, repo):
                 run.fail('DATAFLOW.reaction', 'SurfaceReaction.to_cti', lab, 'raises %s' % out.exc, owner.module, fn)
             else:
                 sg = I.seg(out)
+                check_cti_directives(run, repo, I, out, 'DATAFLOW.reaction', 'SurfaceReaction.to_cti',
+                                     lab + ' valid directives', owner.module, fn)
                 nums = num_fields(I, out)
                 texts = [f.value for f in sg.fields() if f.cls != 'num']
                 ok = len(nums) == 3 and nums[0].eq(wantA) and nums[1].eq(D.sym('beta')) and barrier_ok(nums[2])
@@ -692,6 +887,8 @@ def reaction_emitters(run, repo):
             if not isinstance(d, DictV):
                 run.fail('DATAFLOW.reaction', 'SurfaceReaction.to_omkm_yaml', lab, 'gives %s' % show(d), owner.module, fn)
                 continue
+            check_yaml_plain(run, d, 'DATAFLOW.reaction', 'SurfaceReaction.to_omkm_yaml', lab + ' plain YAML data',
+                             owner.module, fn)
             rc = d.d.get('sticking-coefficient' if adsorption else 'rate-constant')
             ok = isinstance(rc, DictV)
             if ok:
@@ -706,6 +903,12 @@ def reaction_emitters(run, repo):
                                                                                       else rc, 300),
                                                                                  show(wantA, 80), e_text, e_unit),
                       owner.module, fn)
+            gotE_ = rc.d.get('Ea') if isinstance(rc, DictV) else None
+            lossy = lossy_fields(I.seg(gotE_)) if isinstance(gotE_, (str, SegStr)) else []
+            run.check(not lossy, 'DATAFLOW.reaction', 'SurfaceReaction.to_omkm_yaml', lab + ' digits kept',
+                      'the rate block prints %s: a rate parameter has any magnitude, its text must keep at least %d '
+                      'significant digits whatever the magnitude'
+                      % (['%s as {:%s}' % (show(v_, 30), s_) for v_, s_ in lossy[:3]], NEED_DIGITS), owner.module, fn)
             run.check(I.plain(d.d.get('id')) == rid, 'DATAFLOW.reaction', 'SurfaceReaction.to_omkm_yaml', lab + ' id',
                       'id is %s' % show(d.d.get('id')), owner.module, fn)
             eq_ = d.d.get('equation')
@@ -755,6 +958,9 @@ def other_emitters(run, repo):
     d = I.call_method(cov, 'to_omkm_yaml', [], {'units': u})
     ok = isinstance(d, DictV) and [I.plain(x) for x in flat(d.d.get('species'))] == [ni, nj] and \
         d.d.get('coverage-threshold') is iv and I.plain(d.d.get('id')) == nid
+    if isinstance(d, DictV):
+        check_yaml_plain(run, d, 'DATAFLOW.interaction', 'PiecewiseCovEffect.to_omkm_yaml', 'plain YAML data',
+                         owner.module, fn)
     st = d.d.get('strength') if isinstance(d, DictV) else None
     vals = [num_fields(I, x)[0] for x in flat(st)] if isinstance(st, ListV) and all(
         isinstance(x, (str, SegStr)) and num_fields(I, x) for x in flat(st)) else None
@@ -767,6 +973,11 @@ def other_emitters(run, repo):
               'strengths written as %s for slopes %s [kcal/mol]: expected the slopes converted kcal/mol -> kJ/mol, each '
               'labelled kJ/mol' % (show(st, 160), show(sl, 80)), owner.module, fn,
               sample='PiecewiseCovEffect.to_omkm_yaml: strengths converted to the energy unit')
+    lossy = [x_ for e_ in (flat(st) if isinstance(st, ListV) else []) if isinstance(e_, (str, SegStr))
+             for x_ in lossy_fields(I.seg(e_))]
+    run.check(not lossy, 'DIM.strength', 'PiecewiseCovEffect.to_omkm_yaml', 'digits kept',
+              'the YAML entry prints %s: strengths must keep at least %d significant digits whatever their magnitude'
+              % (['%s as {:%s}' % (show(v_, 30), s_) for v_, s_ in lossy[:3]], NEED_DIGITS), owner.module, fn)
     # the same in two more unit systems, the YAML entry and the CTI directive side by side
     for e_u, q_u in (('eV', 'molecule'), ('J', 'mol'), ('cal', 'molec')):       # the last is the default system
         Iu = Interp(repo)
@@ -796,6 +1007,11 @@ def other_emitters(run, repo):
         o_c, f_c = repo.find_method(ci, 'to_cti')
         outu = Iu.call_method(covu, 'to_cti', [], {'units': uu})
         numsu = num_fields(Iu, outu) if isinstance(outu, (str, SegStr)) else []
+        check_cti_directives(run, repo, Iu, outu, 'DATAFLOW.interaction', 'PiecewiseCovEffect.to_cti',
+                             'valid directives in ' + final, o_c.module, f_c)
+        if isinstance(du, DictV):
+            check_yaml_plain(run, du, 'DATAFLOW.interaction', 'PiecewiseCovEffect.to_omkm_yaml',
+                             'plain YAML data in ' + final, owner.module, fn)
         run.check(any(eq_list(numsu, [Du.sym('b1'), Du.sym('b2')] + w_) for w_ in wants), 'DIM.strength',
                   'PiecewiseCovEffect.to_cti',
                   'thresholds and strengths in ' + final,
@@ -809,6 +1025,8 @@ def other_emitters(run, repo):
                  owner.module, fn)
     else:
         sg = I.seg(out)
+        check_cti_directives(run, repo, I, out, 'DATAFLOW.interaction', 'PiecewiseCovEffect.to_cti', 'valid directives',
+                             owner.module, fn)
         texts = [f.value for f in sg.fields() if f.cls != 'num']
         nums = num_fields(I, out)
         run.check(texts == [ni, nj, nid], 'DATAFLOW.interaction', 'PiecewiseCovEffect.to_cti', 'members and id',
@@ -834,11 +1052,17 @@ def other_emitters(run, repo):
     owner, fn = repo.find_method(bci, 'to_omkm_yaml')
     run.fn(bci.qual + '.to_omkm_yaml', bci.qual + '.to_cti')
     d = I.call_method(bep, 'to_omkm_yaml', [], {'units': u})
+    if isinstance(d, DictV):
+        check_yaml_plain(run, d, 'DATAFLOW.bep', 'omkm.BEP.to_omkm_yaml', 'plain YAML data', owner.module, fn)
     icpt = d.d.get('intercept') if isinstance(d, DictV) else None
     iv_ = num_fields(I, icpt) if isinstance(icpt, (str, SegStr)) else []
     ok = isinstance(d, DictV) and I.plain(d.d.get('id')) == bid and isinstance(d.d.get('slope'), Rat) and \
         d.d['slope'].eq(D.sym('bslope')) and len(iv_) == 1 and iv_[0].eq(D.sym('bicpt') * conv) and \
         d.d.get('direction') == 'cleavage' and 'cleavage-reactions' in d.d and 'synthesis-reactions' not in d.d
+    lossy = lossy_fields(I.seg(icpt)) if isinstance(icpt, (str, SegStr)) else []
+    run.check(not lossy, 'DATAFLOW.bep', 'omkm.BEP.to_omkm_yaml', 'digits kept',
+              'the YAML entry prints %s: the intercept must keep at least %d significant digits whatever its magnitude'
+              % (['%s as {:%s}' % (show(v_, 30), s_) for v_, s_ in lossy[:3]], NEED_DIGITS), owner.module, fn)
     run.check(ok, 'DATAFLOW.bep', 'omkm.BEP.to_omkm_yaml', 'members and parameters',
               'BEP entry is %s; expected id, slope, intercept converted kcal/mol -> kJ/mol, direction and its cleavage '
               'reactions' % show(d.d if isinstance(d, DictV) else d, 240), owner.module, fn,
@@ -863,6 +1087,7 @@ def other_emitters(run, repo):
                  owner.module, fn)
     else:
         sg = I2.seg(out)
+        check_cti_directives(run, repo, I2, out, 'DATAFLOW.bep', 'omkm.BEP.to_cti', 'valid directives', owner.module, fn)
         lit = ''.join(s_.text if s_.kind == 'lit' else '\x01' for s_ in sg.segs)
         nums = num_fields(I2, out)
         texts = [f.value for f in sg.fields() if f.cls != 'num']
@@ -891,6 +1116,9 @@ def other_emitters(run, repo):
     # the YAML form of the same relation: each list of member reactions under its own key, naming exactly its members
     owner, fn = repo.find_method(bci, 'to_omkm_yaml')
     d2 = I2.call_method(bep2, 'to_omkm_yaml', [], {'units': u2})
+    if isinstance(d2, DictV):
+        check_yaml_plain(run, d2, 'DATAFLOW.bep', 'omkm.BEP.to_omkm_yaml', 'plain YAML data [both directions]',
+                         owner.module, fn)
     got2 = {k_: named_ids(I2, d2.d.get(k_)) for k_ in ('cleavage-reactions', 'synthesis-reactions')} \
         if isinstance(d2, DictV) else None
     want2 = {'cleavage-reactions': {'r_0001', 'r_0002'}, 'synthesis-reactions': {'r_0005'}}
